@@ -1,7 +1,7 @@
 #!/bin/bash
 # tools/runall.sh [tier] [ids...] : run the registered checks one after another, log + timing
 tier=${1:-quick}; shift
-ids=${@:-C04 C07 C09 C10 C11 C12 C13 C15 C16 C17 C18}
+ids=${@:-C01 C02 C04 C06 C07 C09 C10 C11 C12 C13 C15 C16 C17 C18}
 cd /verif
 for id in $ids; do
   s=$(date +%s)
